@@ -143,4 +143,23 @@ func verifNativeBank(seed, msg []byte) {
 		}
 		verifAssert("bank.S.plus.L", !Verify(pub, msg, bad))
 	}
+	// canonical S in the top window [2^252, L): with a small-order key (identity, order 8) the pair
+	// (R = [S]B, S) satisfies the ZIP-215 equation for every message
+	top := new(big.Int).Lsh(big.NewInt(1), 252)
+	span := new(big.Int).Sub(verifL, top)
+	off := new(big.Int).Mod(verifLE(seed), span)
+	for _, sv := range []*big.Int{new(big.Int).Set(top), new(big.Int).Add(top, off), new(big.Int).Sub(verifL, big.NewInt(1))} {
+		be := sv.FillBytes(make([]byte, 32))
+		le := make([]byte, 32)
+		for i := range be {
+			le[31-i] = be[i]
+		}
+		sc, err := edwards25519.NewScalar().SetCanonicalBytes(le)
+		if err != nil {
+			continue
+		}
+		hs := append(new(edwards25519.Point).ScalarBaseMult(sc).Bytes(), le...)
+		verifAssert("bank.high.S.identity.key", Verify(id.Bytes(), msg, hs))
+		verifAssert("bank.high.S.order8.key", Verify(tb, msg, hs))
+	}
 }
